@@ -472,6 +472,15 @@ func (g *Gen) run() {
 			g.paramSV[fv.Name()] = &SV{LV: lv, T: pt.Elem()}
 		}
 	}
+	// logical variables of the contract: arbitrary values of their types
+	for _, lv := range g.con.Logical {
+		t := g.resolveType(lv.Type, g.pkgTypes())
+		name := "lg." + sanitize(lv.Name)
+		g.declareConst(name, g.sortOf(t))
+		g.addFact(g.rangeFact(name, t))
+		g.addFact(g.allocBound(name, t, "alloc!0"))
+		g.paramSV[lv.Name] = &SV{S: name, T: t}
+	}
 	g.entry = st.clone()
 	// requires
 	env := g.envAt(st, nil)
